@@ -13,7 +13,8 @@ class C13(core.Prop):
     pid = 'C13'
     lean_modules = ['TddaVerif.Props.C13']
     theorems = ['TddaVerif.Props.C13.' + t for t in [
-        'each_pattern_has_witness', 'count_le_distinct', 'none_for_empty', 'pruning_subset', 'anchored']]
+        'each_pattern_has_witness', 'count_le_distinct', 'none_for_empty', 'pruning_subset', 'sampled_pattern_has_witness',
+        'anchored']]
     quick_n = 500
     thorough_n = 40000
     rule = ('cases: as C03 (example multisets over the exotic alphabet x option subsets x dialects x Size x seeds) plus '
@@ -21,7 +22,9 @@ class C13(core.Prop):
             'each case is extracted untagged and tagged. non-trivial = >= 2 returned expressions; distinct by content')
     trusted_base = [
         'as C03: hand-written Lean model of the batch path tied by correspondence on every non-sampling case (here also '
-        'with max_patterns / min_strings_per_pattern and both tag settings); sampling is decided by the oracle only',
+        'with max_patterns / min_strings_per_pattern and both tag settings); the witness theorem also holds under sampling '
+        '(sampled_pattern_has_witness over the loop model that the C03 check ties to the code); count / no-duplicates / '
+        'compilation under sampling are decided by the oracle',
         'theorems speak about the pattern AST; the rendered text is checked with re.compile / re.fullmatch by the oracle',
         'validity of an expression is decided by re.compile, matching by re.fullmatch (CPython re)',
     ]
